@@ -63,7 +63,12 @@ def mapping_cases(tier):
         graph = ref2d.stem_graph(stems)
         if not any(graph[v] for v in graph):
             continue
-        for split in (0, c["n"] // 2):
+        splits = [[], [c["n"] // 2]]
+        if c["n"] >= 6:
+            splits.append([c["n"] // 3, 2 * c["n"] // 3])  # three strands
+        if c["n"] >= 8:
+            splits.append([1, 3, c["n"] - 2])  # four strands of unequal lengths
+        for split in splits:
             k += 1
             yield dict(c, mapping=True, split=split, cli=(k % (8 if q else 3) == 0))
 
@@ -94,7 +99,7 @@ def _mapping_structure(case):
         letters[i - 1], letters[j - 1] = "G", "C"
     specs = []
     for k in range(n):
-        chain = "A" if k < (case["split"] or n) else "B"
+        chain = "ABCD"[sum(1 for b in case["split"] if k >= b)]
         atoms = [(nm, q + np.array([25.0 * k, 0.0, 0.0])) for nm, q in enum3d.origin(letters[k])]
         specs.append((chain, k + 1, None, letters[k], letters[k], atoms))
     return ac.build_structure(specs), letters, specs
@@ -119,7 +124,7 @@ def run_mapping(case):
     bps = [BasePair(Residue(nts[i - 1].label, nts[i - 1].auth), Residue(nts[j - 1].label, nts[j - 1].auth), LeontisWesthof.cWW, Saenger.XIX) for i, j in case["pairs"]]
     want = ref2d.all_greedy_stable(stems, graph)
     seq = "".join(letters)
-    chains = ["A"] if not case["split"] else ["A", "B"]
+    chains = list("ABCD"[: len(case["split"]) + 1])
 
     def judge(where, texts):
         if len(set(texts)) != len(texts):
@@ -161,7 +166,7 @@ def run_mapping(case):
     u = {}
     for v in out:
         u.setdefault(v["signature"], v)
-    return dict(nontrivial=True, outcome="mapping:members=%d split=%s" % (min(len(al or []), 20), bool(case["split"])), violations=list(u.values()))
+    return dict(nontrivial=True, outcome="mapping:members=%d strands=%d" % (min(len(al or []), 20), len(case["split"]) + 1), violations=list(u.values()))
 
 
 def _mapping_cli(case, specs, al, out):
